@@ -125,7 +125,7 @@ fn drive_lax(out: &mut impl Write, r: &mut Rng, budget: usize, props: &Value) {
 fn rand_diagram(r: &mut Rng, maxn: usize, maxe: usize, src_type: Option<&Vec<i64>>) -> Value {
     // plain description, then the strict representation (sizes + values), through JSON
     let mut n = r.below(maxn + 1);
-    let mut w: Vec<i64> = (0..n).map(|_| r.below(2) as i64).collect();
+    let mut w: Vec<i64> = (0..n).map(|_| r.below(3) as i64).collect();
     let s: Vec<usize> = match src_type {
         Some(ty) => {
             // nodes with the required labels (appended when missing)
@@ -227,10 +227,12 @@ fn rand_circuit(r: &mut Rng, nops: usize) -> (Value, usize) {
 /// a functor table covering every operation type that occurs in `f`:
 /// objects 0 |-> [0, 1], 1 |-> [] (or [1], [0, 0] ...), operations to fresh single operations of the right type
 fn functor_for(r: &mut Rng, f: &Value) -> Value {
-    let objs: Vec<Vec<i64>> = match r.below(3) {
-        0 => vec![vec![0, 1], vec![]],
-        1 => vec![vec![1], vec![0, 0]],
-        _ => vec![vec![0], vec![1]],
+    // three generating objects, images of different lengths (block offsets matter)
+    let objs: Vec<Vec<i64>> = match r.below(4) {
+        0 => vec![vec![0, 1], vec![], vec![1]],
+        1 => vec![vec![1], vec![0, 0], vec![]],
+        2 => vec![vec![0, 0], vec![1, 0, 1], vec![0]],
+        _ => vec![vec![0], vec![1], vec![2]],
     };
     let w = vec_o(&f["h"]["w"]);
     let x = vec_o(&f["h"]["x"]);
